@@ -49,7 +49,13 @@ def _solve(i):
         if ob.method == "gf2":
             impl, spec = ob.assertions
             ok, why = gf2.equal(impl, spec)
-            return i, ("unsat" if ok else "sat"), time.time() - t0, ({"gf2": why} if not ok else None), "gf2", ""
+            model = None
+            if not ok:
+                model = dict(gf2.assignment(impl, spec))
+                for n, v in free_vars(impl != spec).items():
+                    model.setdefault(n, 0)
+                model["gf2"] = why
+            return i, ("unsat" if ok else "sat"), time.time() - t0, model, "gf2", ""
         if ob.kind == "comb" and ob.method == "z3" and len(ob.assertions) == 2 and not z3.is_bool(ob.assertions[0]):
             impl, spec = ob.assertions
             asserts = [impl != spec]
